@@ -76,6 +76,15 @@ Theorem C08_refuted_queue_not_erased_on_removal :
   /\ q_deliv (qrun false [QAccept 7; QQueue 7; QClose 7; QAccept 7; QQueue 7; QFlush 7]) = [(2, 1); (2, 2)].
 Proof. exact q_refuted_without_erase. Qed.
 Print Assumptions C08_refuted_queue_not_erased_on_removal.
+(* refuted for writes matched by descriptor number only (before fix 0537db4; [QLate fd g]: a write made for generation g of the
+   number - a handler answering from a thread of its own, Peer::send on a kept peer - reaches the queue after that
+   connection has ended and the number has been given to a new one).  With the id check it is dropped; the theorem
+   C08_connection_receives_only_its_own_writes above quantifies over histories with such writes too. *)
+Theorem C08_refuted_write_matched_by_number_only :
+  q_stale (qrun_gen true false [QAccept 7; QClose 7; QAccept 7; QLate 7 1; QFlush 7]) = 1
+  /\ q_stale (qrun true [QAccept 7; QClose 7; QAccept 7; QLate 7 1; QFlush 7]) = 0.
+Proof. exact q_refuted_by_number_only. Qed.
+Print Assumptions C08_refuted_write_matched_by_number_only.
 
 (* Descriptors of files queued for a connection (Http::serveFile): in every history of queued writes, completed writes and
    dropped connections, the files open on behalf of a connection are exactly the file writes still in its queue ... *)
